@@ -541,8 +541,10 @@ package gohlslib
 
 //@ pred win(s *muxerStream) := idRel(s) && shape(s) && ids(s) && partsOK(s) && len(s.segments) <= s.segmentCount
 
+// the init segment declares, per track, the time scale in which the segmenter stamps that track's samples:
+// Track.ClockRate (C01: "in the track's own timescale"; C09: the client reports the muxer's clock rates)
 //@ func muxerStream.generateAndCacheInitFile
-//@   props C02 C05
+//@   props C01 C02 C05 C09
 //@   role writer
 //@   requires held(s.mutex) && streamLinks(s) && s.server.pathHandlers != nil && unheld(&s.server.mutex) && distinctTracks(s.tracks)
 //@   modifies s.initFilePresent, s.server.pathHandlers[*]
@@ -552,9 +554,10 @@ package gohlslib
 //@   ensures forall(k, (has(s.server.pathHandlers, k) && !old(has(s.server.pathHandlers, k))) ==> k == initFilePath(s.prefix, s.id))
 //@   loop 1 invariant -1 <= ri && ri < len(s.tracks) && trackID == ri + 2 && len(init.Tracks) == ri + 1
 //@   loop 1 invariant forall(j, (0 <= j && j <= ri) ==> (init.Tracks[j] != nil && init.Tracks[j].ID == j + 1
-//@        && init.Tracks[j].TimeScale == fmp4TimeScale(s.tracks[j].Codec)))
+//@        && ((0 <= s.tracks[j].ClockRate && s.tracks[j].ClockRate < 4294967296) ==> init.Tracks[j].TimeScale == s.tracks[j].ClockRate)))
 //@   atcall fmp4.Init.Marshal len(arg0.Tracks) == len(s.tracks)
-//@   atcall fmp4.Init.Marshal forall(j, (0 <= j && j < len(s.tracks)) ==> (arg0.Tracks[j].ID == j + 1 && arg0.Tracks[j].TimeScale == fmp4TimeScale(s.tracks[j].Codec)))
+//@   atcall fmp4.Init.Marshal forall(j, (0 <= j && j < len(s.tracks)) ==> (arg0.Tracks[j].ID == j + 1
+//@        && ((0 <= s.tracks[j].ClockRate && s.tracks[j].ClockRate < 4294967296) ==> arg0.Tracks[j].TimeScale == s.tracks[j].ClockRate)))
 //@ end
 
 // rotateSegments: publishes the open segment (id old nextSegmentID, ending at nextDTS) at the tail of the window,
